@@ -321,6 +321,12 @@ func gen(r *hx.Rand, tier string) []json.RawMessage {
 		}
 		add(input{Kind: "source", Rows: rows})
 	}
+	// hostile Root values next to an honest row: the honest row must still be served
+	for _, hr := range []string{"../../etc", "..", "a/../../b", "/abs", "/", "../m", "./..", "x/../../..", "\xff", "ok/./sub//"} {
+		add(input{Kind: "source", Rows: []row{
+			{Root: []byte("github.com/ex/sim"), Entries: []ent{reg("core/a.go", [2]int{65, 4}, [2]int{10, 1}), reg("go.mod", [2]int{66, 2})}},
+			{Root: []byte(hr), Entries: []ent{reg("passwd.go", [2]int{67, 3}), reg("sub/x.go", [2]int{68, 2})}}}})
+	}
 	add(input{Kind: "source", Rows: []row{{Root: []byte("m"), Entries: []ent{reg("../../escape.go", [2]int{65, 3}), reg("/abs.go", [2]int{66, 3}),
 		reg("ok/../fine.go", [2]int{67, 3}), reg("..", [2]int{68, 1}), reg(".", [2]int{69, 1}), reg("sub/./x.go", [2]int{70, 2}), reg("\xff.go", [2]int{71, 1})}},
 		{Root: []byte(""), Entries: []ent{reg(".", [2]int{72, 1}), reg("top.go", [2]int{73, 1})}}}})
